@@ -48,6 +48,12 @@ type Solver struct {
 	timeout int // ms
 	logw    io.Writer
 	dead    bool
+	needFresh bool
+	euf       bool     // strings as an uninterpreted sort (equality, length, isuuid only)
+	scList    []*Term  // string constants declared in the current scope (euf mode)
+	scMarks   []int
+	inPath    bool
+	cycles    int
 }
 
 func NewSolver(name string, timeoutMs int) (*Solver, error) {
@@ -116,12 +122,18 @@ func (s *Solver) preamble() {
 		s.send(fmt.Sprintf("(set-option :timeout %d)\n(set-option :model.completion true)\n", s.timeout))
 	}
 	s.send("(declare-fun isuuid (String) Bool)\n")
+	if s.name != "cvc5" {
+		s.send("(declare-sort Str 0)\n(declare-fun isuuid_a (Str) Bool)\n(declare-fun slen (Str) Int)\n(declare-const sc_empty Str)\n(assert (= (slen sc_empty) 0))\n(assert (not (isuuid_a sc_empty)))\n")
+	}
+	s.scList = s.scList[:0]
+	s.scMarks = s.scMarks[:0]
 	s.defined = make(map[int]bool)
 	s.journal = s.journal[:0]
 	s.marks = s.marks[:0]
 }
 
-// Reset clears all assertions and declarations (start of a new path).
+// Reset clears all assertions and declarations (start of a new path). It is lazy: nothing is sent until the
+// path first talks to the solver; paths are bracketed by push/pop, with a full (reset) every few hundred paths.
 func (s *Solver) Reset() {
 	if s.dead {
 		s.Close()
@@ -129,16 +141,44 @@ func (s *Solver) Reset() {
 		if err := s.start(); err != nil {
 			panic(err)
 		}
+		s.inPath = false
+		s.needFresh = false
 		return
 	}
-	s.send("(reset)\n")
-	s.preamble()
+	s.needFresh = true
+}
+
+func (s *Solver) ensureFresh() {
+	if !s.needFresh {
+		return
+	}
+	s.needFresh = false
+	if s.inPath {
+		s.send("(pop 1)\n")
+		s.inPath = false
+	}
+	s.cycles++
+	if s.cycles%400 == 0 {
+		s.send("(reset)\n")
+		s.preamble()
+	}
+	s.send("(push 1)\n")
+	s.inPath = true
+	s.defined = make(map[int]bool)
+	s.journal = s.journal[:0]
+	s.marks = s.marks[:0]
+	s.scList = s.scList[:0]
+	s.scMarks = s.scMarks[:0]
 }
 
 func (s *Solver) push() {
 	s.send("(push 1)\n")
 	s.marks = append(s.marks, len(s.journal))
+	s.scMarks = append(s.scMarks, len(s.scList))
 }
+
+// SetEUFStrings selects the string encoding for the next path (must be called before anything is sent for it).
+func (s *Solver) SetEUFStrings(on bool) { s.euf = on && s.name != "cvc5" }
 
 func (s *Solver) pop() {
 	s.send("(pop 1)\n")
@@ -148,6 +188,54 @@ func (s *Solver) pop() {
 		delete(s.defined, id)
 	}
 	s.journal = s.journal[:m]
+	sm := s.scMarks[len(s.scMarks)-1]
+	s.scMarks = s.scMarks[:len(s.scMarks)-1]
+	s.scList = s.scList[:sm]
+}
+
+// ref prints a reference to t in the current string encoding.
+func (s *Solver) ref(t *Term) string {
+	if s.euf && t.op == "const" && t.sort == SStr {
+		if t.cv.(string) == "" {
+			return "sc_empty"
+		}
+		return "sc" + strconv.Itoa(t.id)
+	}
+	return refSMT(t)
+}
+
+func (s *Solver) sortName(srt Sort) string {
+	if s.euf && srt == SStr {
+		return "Str"
+	}
+	return srt.String()
+}
+
+func (s *Solver) body(t *Term) string {
+	if !s.euf {
+		return bodySMT(t)
+	}
+	switch {
+	case t.op == "strlen64":
+		return "((_ int2bv 64) (slen " + s.ref(t.args[0]) + "))"
+	case strings.HasPrefix(t.op, "lencmp:"):
+		parts := strings.SplitN(t.op, ":", 3)
+		return "(" + parts[1] + " (slen " + s.ref(t.args[0]) + ") " + parts[2] + ")"
+	case t.op == "uf:isuuid":
+		return "(isuuid_a " + s.ref(t.args[0]) + ")"
+	case strings.HasPrefix(t.op, "str."):
+		panic(engineAbort{"realstrings", t.op})
+	}
+	op := t.op
+	var sb strings.Builder
+	sb.WriteByte('(')
+	sb.WriteString(op)
+	for _, a := range t.args {
+		sb.WriteByte(' ')
+		sb.WriteString(s.ref(a))
+	}
+	sb.WriteByte(')')
+	return sb.String()
 }
 
 // define emits declarations/definitions for t and its sub-terms not yet known in the current scope.
@@ -157,14 +245,33 @@ func (s *Solver) define(t *Term, sb *strings.Builder) {
 	}
 	switch t.op {
 	case "const":
-		return
+		if !s.euf || t.sort != SStr || t.cv.(string) == "" {
+			return
+		}
+		lit := t.cv.(string)
+		name := s.ref(t)
+		fmt.Fprintf(sb, "(declare-const %s Str)\n(assert (= (slen %s) %d))\n", name, name, len(lit))
+		if uuidLower.MatchString(lit) {
+			fmt.Fprintf(sb, "(assert (isuuid_a %s))\n", name)
+		} else {
+			fmt.Fprintf(sb, "(assert (not (isuuid_a %s)))\n", name)
+		}
+		for _, o := range s.scList {
+			if len(o.cv.(string)) == len(lit) {
+				fmt.Fprintf(sb, "(assert (not (= %s %s)))\n", name, s.ref(o))
+			}
+		}
+		s.scList = append(s.scList, t)
 	case "var":
-		fmt.Fprintf(sb, "(declare-const %s %s)\n", t.name, t.sort)
+		fmt.Fprintf(sb, "(declare-const %s %s)\n", t.name, s.sortName(t.sort))
+		if s.euf && t.sort == SStr {
+			fmt.Fprintf(sb, "(assert (>= (slen %s) 0))\n(assert (=> (= (slen %s) 0) (= %s sc_empty)))\n", t.name, t.name, t.name)
+		}
 	default:
 		for _, a := range t.args {
 			s.define(a, sb)
 		}
-		fmt.Fprintf(sb, "(define-fun t%d () %s %s)\n", t.id, t.sort, bodySMT(t))
+		fmt.Fprintf(sb, "(define-fun t%d () %s %s)\n", t.id, s.sortName(t.sort), s.body(t))
 	}
 	s.defined[t.id] = true
 	s.journal = append(s.journal, t.id)
@@ -172,9 +279,10 @@ func (s *Solver) define(t *Term, sb *strings.Builder) {
 
 // Assert adds t to the current scope.
 func (s *Solver) Assert(t *Term) {
+	s.ensureFresh()
 	var sb strings.Builder
 	s.define(t, &sb)
-	fmt.Fprintf(&sb, "(assert %s)\n", refSMT(t))
+	fmt.Fprintf(&sb, "(assert %s)\n", s.ref(t))
 	s.send(sb.String())
 }
 
@@ -182,11 +290,18 @@ func (s *Solver) Assert(t *Term) {
 func (s *Solver) Check(extra []*Term, vars []*Term, wantModel bool) (Result, map[string]interface{}) {
 	start := time.Now()
 	s.Stats.Queries++
+	s.ensureFresh()
 	s.push()
 	var sb strings.Builder
 	for _, t := range extra {
 		s.define(t, &sb)
-		fmt.Fprintf(&sb, "(assert %s)\n", refSMT(t))
+		fmt.Fprintf(&sb, "(assert %s)\n", s.ref(t))
+	}
+	if wantModel {
+		// everything the model is read for must be declared before check-sat (declarations may carry axioms)
+		for _, v := range vars {
+			s.define(v, &sb)
+		}
 	}
 	sb.WriteString("(check-sat)\n")
 	s.send(sb.String())
@@ -261,9 +376,28 @@ func (s *Solver) getValues(vars []*Term) map[string]interface{} {
 	}
 	sb.WriteString(defs.String())
 	sb.WriteString("(get-value (")
+	n := 0
 	for _, v := range vars {
-		sb.WriteString(refSMT(v))
+		sb.WriteString(s.ref(v))
 		sb.WriteByte(' ')
+		n++
+	}
+	// euf strings: also the classes of the declared constants, and length / uuid-ness of every string term
+	var strTerms []*Term
+	if s.euf {
+		for _, v := range vars {
+			if v.sort == SStr {
+				strTerms = append(strTerms, v)
+			}
+		}
+		for _, c := range s.scList {
+			sb.WriteString(s.ref(c))
+			sb.WriteByte(' ')
+		}
+		sb.WriteString("sc_empty ")
+		for _, v := range strTerms {
+			fmt.Fprintf(&sb, "(slen %s) (isuuid_a %s) ", s.ref(v), s.ref(v))
+		}
 	}
 	sb.WriteString("))\n")
 	s.send(sb.String())
@@ -277,16 +411,90 @@ func (s *Solver) getValues(vars []*Term) map[string]interface{} {
 		return nil
 	}
 	model := make(map[string]interface{})
-	if len(ex.list) != len(vars) {
+	if len(ex.list) < n {
 		return model
 	}
-	for i, pair := range ex.list {
+	for i := 0; i < n; i++ {
+		pair := ex.list[i]
 		if len(pair.list) != 2 {
+			continue
+		}
+		if s.euf && vars[i].sort == SStr {
+			model[refSMT(vars[i])] = abstractStr(pair.list[1].atom)
 			continue
 		}
 		model[refSMT(vars[i])] = decodeValue(pair.list[1], vars[i].sort)
 	}
+	if s.euf {
+		s.concretizeStrings(model, vars, strTerms, ex.list[n:])
+	}
 	return model
+}
+
+type abstractStr string
+
+// concretizeStrings turns the classes of the uninterpreted string sort into real strings.
+func (s *Solver) concretizeStrings(model map[string]interface{}, vars, strTerms []*Term, rest []*sexp) {
+	classLit := map[string]string{}
+	used := map[string]bool{}
+	k := 0
+	for _, c := range s.scList {
+		if k < len(rest) && len(rest[k].list) == 2 {
+			classLit[rest[k].list[1].atom] = c.cv.(string)
+			used[c.cv.(string)] = true
+		}
+		k++
+	}
+	if k < len(rest) && len(rest[k].list) == 2 {
+		classLit[rest[k].list[1].atom] = ""
+	}
+	k++
+	used[""] = true
+	gen := 0
+	for _, v := range strTerms {
+		var ln int64
+		isU := false
+		if k+1 < len(rest) && len(rest[k].list) == 2 && len(rest[k+1].list) == 2 {
+			ln, _ = strconv.ParseInt(rest[k].list[1].atom, 10, 64)
+			isU = rest[k+1].list[1].atom == "true"
+		}
+		k += 2
+		cls, _ := model[refSMT(v)].(abstractStr)
+		if lit, ok := classLit[string(cls)]; ok {
+			model[refSMT(v)] = lit
+			continue
+		}
+		var str string
+		for {
+			gen++
+			switch {
+			case isU:
+				str = fmt.Sprintf("aaaaaaaa-0000-4000-8000-%012d", gen)
+			case ln <= 0:
+				str = "" // cannot happen: length-0 strings are sc_empty
+			case ln == 1:
+				str = string(rune('a' + gen%26))
+				if gen >= 26 {
+					str = string(rune(0x100 + gen))
+				}
+			default:
+				base := "s" + strconv.FormatInt(int64(gen), 36)
+				if int64(len(base)) > ln {
+					base = base[int64(len(base))-ln:]
+				}
+				if ln > 1<<16 {
+					ln = int64(len(base))
+				}
+				str = base + strings.Repeat("_", int(ln)-len(base))
+			}
+			if !used[str] {
+				break
+			}
+		}
+		used[str] = true
+		classLit[string(cls)] = str
+		model[refSMT(v)] = str
+	}
 }
 
 // readSexp reads one balanced s-expression from the solver output.
